@@ -29,11 +29,11 @@ func init() {
 		ID:        "C17",
 		Level:     "exploration",
 		Technique: "differential monitoring of the real types.ValidatorSet (and consensus.ApplyBlock / VerifyFaultValEvidence call sites) against a one-step weighted-round-robin reference, pairwise path comparison, exact counting laws and a map model of the set",
-		Rule: "case = one generated validator set (1-30 validators; equal / small / coprime / dominant / wide / extreme / saturating powers; random list order) put through: " +
+		Rule: "case = one generated validator set (thorough: 8 sets per case; 1-30 validators; equal / small / coprime / dominant / wide / extreme / saturating powers; random list order) put through: " +
 			"(1) every composition of n<=8 and random compositions of n<=200 rotations, each part IncrementAccum(k) compared with k single steps from the same state and every end state with the round-by-round walk; " +
 			"(2) every single step compared with the reference (max accum, lower address wins ties, saturating big.Int arithmetic); " +
 			"(3) exact fairness: from a fresh set every window of W*total single steps has exactly W*power proposals per validator, the accum vector is periodic, accum>-total, sum conserved; " +
-			"(4) Hash/order vs list order, insertion order, accum and proposer cache; Copy() independence both ways; " +
+			"(4) Hash/order vs list order, insertion order, accum and proposer cache; Copy() independence both ways; values handed in/out are copies; " +
 			"(5) random add/update/remove/rotate history vs a map model, all permutations (<=5) of one update list; " +
 			"(6) TotalVotingPower == min(sum,MaxInt64) and accum bounds under extreme powers; " +
 			"(7) consensus.BlockExecutor.ApplyBlock at height 1 with the same application output in different orders / on different status copies; VerifyFaultValEvidence against the round-by-round proposer. " +
@@ -46,7 +46,7 @@ func init() {
 		},
 		Cases: func(tier string) int {
 			if tier == "thorough" {
-				return 240000
+				return 60000 // x 8 sets per case
 			}
 			return 4000
 		},
@@ -180,8 +180,28 @@ func permuted(r *rng.R, vals []*types.Validator) []*types.Validator {
 	return out
 }
 
+// setsPerCase: the thorough tier runs more sets per case (the first one is the quick tier's set
+// of the same index) to keep the number of result records moderate.
+func setsPerCase(tier string) int {
+	if tier == "thorough" {
+		return 8
+	}
+	return 1
+}
+
 func run(c *core.Ctx) {
-	k := &kase{c: c, r: c.Rng, seen: map[string]bool{}}
+	seen := map[string]bool{}
+	for j := 0; j < setsPerCase(c.Tier); j++ {
+		r := c.Rng
+		if j > 0 {
+			r = rng.Derive(c.Seed, "C17-extra-set", c.Index, j)
+		}
+		runSet(c, r, seen, j == 0)
+	}
+}
+
+func runSet(c *core.Ctx, r *rng.R, seen map[string]bool, first bool) {
+	k := &kase{c: c, r: r, seen: seen}
 	n := genSize(k.r)
 	powers, class := genPowers(k.r, n)
 	k.class = class
@@ -225,7 +245,7 @@ func run(c *core.Ctx) {
 		}
 		c.Nontrivial(fmt.Sprintf("%x", h.Sum(nil)[:8]))
 	}
-	if c.Index%500 == 0 {
+	if first && c.Index%500 == 0 {
 		sp := append([]int64{}, powers...)
 		sort.Slice(sp, func(i, j int) bool { return sp[i] < sp[j] })
 		if len(sp) > 12 {
@@ -244,8 +264,39 @@ func maxInt(a, b int) int {
 }
 
 func floors(tier string) map[string]int64 {
-	return floorTable
+	scale := int64(1)
+	if tier == "thorough" {
+		scale = 60000 * 8 / 4000
+	}
+	out := map[string]int64{}
+	for k, v := range floorTable {
+		out[k] = v * scale
+	}
+	return out
 }
 
-// floorTable: roughly half of the minimum observed over VERIF_SEED=1..5 (quick tier).
-var floorTable = map[string]int64{}
+// floorTable: roughly half of the minimum observed over VERIF_SEED=1..5 in the quick tier
+// (4000 sets); every counter grows linearly with the number of sets.
+var floorTable = map[string]int64{
+	"multi_step_parts_compared":          275000,
+	"compositions_exhaustive":            500000,
+	"compositions_random":                4000,
+	"single_steps_vs_reference":          120000,
+	"steps_with_tie_for_max":             35000,
+	"steps_with_saturation":              23000,
+	"fairness_windows":                   2300,
+	"fairness_steps":                     430000,
+	"identity_list_permutations":         3800,
+	"identity_built_by_add":              2000,
+	"copy_independence_checks":           11000,
+	"aliasing_checks":                    8000,
+	"history_ops":                        37000,
+	"proposer_after_invalidation_checks": 20000,
+	"update_list_orders":                 70000,
+	"total_power_clipped_checks":         380,
+	"accum_bound_checks_saturating":      13000,
+	"apply_block_calls":                  6000,
+	"status_changed_lists":               3000,
+	"fault_evidence_checks_round_ge_2":   1400,
+	"fault_evidence_wrong_records":       5000,
+}
